@@ -514,6 +514,12 @@ def run(an: Analysis, rep):
                             f"`{norm_src(n)}` sets a position override after the rank function has decided that none is needed: the decoded data carries redundant overrides")
     rep.run(unreferenced_rules, an, rep)
     rep.run(r096, an, rep)
+    from .common import SharedRules
+    from . import c02
+    shx = SharedRules(rep, "R09.X", "the index an instruction references is reassembled from all its EXTENDED_ARG prefixes (shared with C02's R02.6/R02.7): a table position beyond 255 misread gives a wrong entry, a wrong override and a wrong 'never referenced' list")
+    rep.run(c02.r026, an, shx)
+    rep.run(c02.r027, an, shx)
+    rep.run(c02.r028, an, shx)
     # R09.4: each member of the AdditionalArg union is produced from the same table as the instruction operand of that class
     tg = an.tg
     cd = an.prog.cls("code_data::CodeData")
